@@ -1,10 +1,10 @@
 """C15 plan (see lib/plan.py for the format)."""
-from plan import R, D, stages
+from plan import R, D, T, stages
 
 PLAN = dict(
     **stages(
-        quick=[(R, "quick", 16), (D, "small", 16)],
-        thorough=[(R, "thorough", 16), (D, "quick", 16)],
+        quick=[(R, "quick", 16), (D, "small", 16), (T, "small", 16)],
+        thorough=[(R, "thorough", 16), (D, "quick", 16), (T, "quick", 16)],
     ),
     rule=("cases are entry sequences built round-robin from 15 scenarios (tiny, plain, consecutive "
           "@ignore, trailing @ignore, @ignore separated from its file by 1-3 other commands rotating through all 15 "
